@@ -534,7 +534,13 @@ MoveInfo Position::do_move(Move move)
             set_enpassant_square(NO_SQUARE);
     }
 
-    assert(_history_counter < MAX_PLIES);
+    if (_history_counter == MAX_PLIES)
+    {
+        // keep the most recent half: a repetition cannot reach back further
+        // than the 50-move rule allows
+        std::copy(_history + MAX_PLIES / 2, _history + MAX_PLIES, _history);
+        _history_counter = MAX_PLIES / 2;
+    }
     _history[_history_counter++] = _zobrist_hash.get_key();
 
     return create_moveinfo(captured, prev_castling, prev_enpassant_sq,
